@@ -418,3 +418,17 @@ Proof. induction evs; intros s H; [exact H|]. cbn [drun fold_left]. apply IHevs.
 
 Lemma dinv_empty : forall fs, dinv (mkD fs []).
 Proof. intros. split; [intros x []|constructor]. Qed.
+
+(* ---------------------------------------------------------------- the index search walks the taken indices only *)
+Lemma gap_from_bounds : forall fuel k l, k <= gap_from fuel k l <= k + N.of_nat fuel.
+Proof.
+  induction fuel; intros k l; cbn [gap_from]; [lia|]. destruct (memn k l); [|lia].
+  specialize (IHfuel (k + 1) l). lia.
+Qed.
+
+Lemma next_index_bounds : forall inds, inds <> [] ->
+  minl inds <= next_index inds <= minl inds + N.of_nat (length inds) + 1.
+Proof.
+  intros inds H. unfold next_index. destruct inds as [|a r] eqn:E; [congruence|]. rewrite <- E.
+  pose proof (gap_from_bounds (S (length inds)) (minl inds) inds). lia.
+Qed.
